@@ -66,7 +66,7 @@ package builder
 //@ func data/builder.fileTreeRecursive
 //@ prop C01 C11
 //@ at return assert leaf-sizes: depth == 1 && err == nil && result0.link != nil ==> result0.byteSize == len(leaf) && result0.storedSize == sz
-//@ at return assert interior-node-sizes: depth != 1 && len(children) >= 2 && err == nil ==> result0.byteSize == totalBytes(children) && result0.storedSize == totalStored(children) + sz
+//@ at return assert interior-node-sizes: depth != 1 && err == nil ==> result0.byteSize == totalBytes(children) && result0.storedSize == totalStored(children) + sz
 //@ ensures any-write-failure-fails-the-build: (err == nil ==> storeFailed == old(storeFailed)) && (old(storeFailed) ==> storeFailed)
 //@ requires children-stored: allStored(children)
 //@ ensures error-implies-nil-link: err != nil ==> result0.link == nil
